@@ -600,6 +600,12 @@ fn fingerprints(args: &[String]) -> i32 {
 }
 
 pub fn main() -> i32 {
+    // panics of the code under test are caught and reported as violations; keep stderr quiet
+    // and remember where the panic came from
+    std::panic::set_hook(Box::new(|info| {
+        let loc = info.location().map(|l| format!("{}:{}", l.file(), l.line())).unwrap_or_default();
+        crate::engine::LAST_PANIC_LOC.with(|l| *l.borrow_mut() = loc);
+    }));
     let args: Vec<String> = std::env::args().collect();
     match args.get(1).map(|s| s.as_str()) {
         Some("check") if args.len() >= 4 => check(&args[2], &args[3]),
